@@ -470,10 +470,10 @@ func checkC19(c *h.Check) {
 	c.Coverage["transitions"] = 2*len(cases) + len(scases)
 	c.Coverage["traces_validated_against_impl"] = len(cases) + len(scases)
 	c.Coverage["rule"] = "A: the accepted and rejected programs of the C05, C06, C08, C09, C11, C12, C13, C20 quick families and of C01's accessibility/aliased-import/layout families (quick tier: the graph families of C06/C08 up to 2 nodes) (every rejection reason represented) plus accepted programs carrying an unused ill-formed top-level set of each kind: wire gen and wire check run on the same tree; check must fail exactly when gen fails for a package of the case or a top-level set is ill-formed, every error class gen reports must be reported by check, and check must not change the tree; the same with -tags on packages whose injectors depend on the tag. B: all DAGs on <=4 nodes with node kinds {function, external input, struct pointer/value, field, pointer-to-field, binding, value} (deviation bound 2, thorough 2 on all), nesting depth 0-2, lib-package split, one named set per node (also wrapped in inline NewSet calls): wire show's stdout (plain binary, and the map-order-instrumented binary under the reverse and rotate policies, which must print the same) is parsed and compared with the model: every top-level set listed with the named sets it includes, every provided type grouped under exactly its transitive set of external input types, injectors listed. Distinct = distinct rendered source."
-	if len(cases) > 0 {
+	if len(cases) > 0 && len(results) == len(cases) {
 		c.Samples = append(c.Samples, map[string]interface{}{"case": cases[len(cases)/2].ID, "gen_diags": results[len(cases)/2].Root().Diags, "check_diags": results[len(cases)/2].CheckDiags})
 	}
-	if len(scases) > 0 {
+	if len(scases) > 0 && len(sres) == len(scases) {
 		i := len(scases) / 2
 		c.Samples = append(c.Samples, map[string]interface{}{"case": scases[i].ID, "show_output": sres[i].ShowOut})
 	}
